@@ -227,8 +227,8 @@ fn explore<const N: usize>(pool: &[Op], depth: usize, dups: usize) -> Stats {
 pub fn run(tier: Tier) -> i32 {
     let mut report = Report::new("C04", tier, "model_checking");
     let pool = pool();
-    let depth = tier.pick(4, 5);
-    let dups = tier.pick(1, 1);
+    let depth = tier.pick(5, 6);
+    let dups = tier.pick(1, 2);
 
     let mut total = Stats::default();
     total.merge(explore::<1>(&pool, depth, dups));
@@ -236,6 +236,8 @@ pub fn run(tier: Tier) -> i32 {
     if tier.is_thorough() {
         // Three sources: the per-source bookkeeping generalises over N.
         total.merge(explore::<3>(&pool, depth - 1, dups));
+        // one level deeper without duplicates on the two-source set the store uses
+        total.merge(explore::<2>(&pool, depth + 1, 0));
     }
 
     let sequences = total.get("sequences");
